@@ -72,7 +72,7 @@ def subsets_case(runner, r, base, i, oc, ereqs, epend, sreqs, spend, wreqs):
         f["final_newline"] = True
     fl = [(f["name"], engtpl.render_file(f)) for f in tpl]
     tags = r.sample(engtpl.USER_TAGS, 4)
-    vals = {t: r.choice(["", None, 0, 1, 7, "abc", "a,b", "x y", "3"]) for t in tags}
+    vals = {t: r.choice(["", None, 0, 1, 7, "abc", "a,b", "x y", "3"] + engtpl.EQUAL_TWINS) for t in tags}
     itf = genlib.build_iface(runner.kt, model["iface"])
     for k, mask in enumerate(itertools.product([0, 1], repeat=4)):
         ut = {t: vals[t] for t, m in zip(tags, mask) if m}
